@@ -52,6 +52,12 @@ def make_fake(pexpect, prompt, cont, banner, orig, cuts):
                 raise pexpect.TIMEOUT('nothing more arrives')
             return self.pipe.pop(0)
 
+        def expect_exact(self, pattern_list, timeout=-1, **kw):
+            # what each wait for a prompt is given as its timeout (the caller's, except for the wait that follows an interrupt)
+            self.waits = getattr(self, 'waits', [])
+            self.waits.append((timeout, self.ints))
+            return pexpect.spawn.expect_exact(self, pattern_list, timeout=timeout, **kw)
+
         def send(self, s):
             self.partial += s
             while '\n' in self.partial:
@@ -119,12 +125,38 @@ def run_sim(pexpect, case):
         return [[1, r, wv(), list(fake.echo_calls)]], records
     obs = [[0, wv(), list(fake.echo_calls)]]
     w = box['w']
-    for command, ccs in case['cmds']:
-        del queue[:]
-        queue += [list(c) for c in ccs]
-        r = outcome_of(lambda: w.run_command(command), pexpect)
-        obs.append([r, wv()])
-        records.append((command, r))
+    import pexpect._async as pa
+    real_async = pa.expect_async
+
+    async def loop_glue(expecter, timeout=None):
+        # the asyncio transport is replaced by the blocking loop on the same scripted reads (C14 is about that glue):
+        # what is exercised here is repl_run_command_async itself
+        return expecter.expect_loop(timeout)
+    pa.expect_async = loop_glue
+    try:
+        for k, (command, ccs) in enumerate(case['cmds']):
+            del queue[:]
+            queue += [list(c) for c in ccs]
+            use_async = bool(case.get('async', [])[k:k + 1] == [True])
+            fake.waits = []
+            ints_before = fake.ints
+            if use_async:
+                def call():
+                    loop = asyncio.new_event_loop()
+                    try:
+                        return loop.run_until_complete(w.run_command(command, timeout=7, async_=True))
+                    finally:
+                        loop.close()
+                r = outcome_of(call, pexpect)
+            else:
+                r = outcome_of(lambda: w.run_command(command, timeout=7), pexpect)
+            obs.append([r, wv()])
+            records.append((command, r))
+            bad_waits = [t for t, ints in fake.waits if t != 7 and ints == ints_before]
+            if bad_waits:
+                records.append(('TIMEOUTS', command, use_async, bad_waits))
+    finally:
+        pa.expect_async = real_async
     obs.append(list(fake.got))
     fake.closed = True
     return obs, records
@@ -185,12 +217,13 @@ def gen_case(rng):
         cmds.append((c, [gen_cut(rng, 12) for _ in range(n)]))
     extra = None if rng.random() < 0.6 else gen_command(rng, True)
     return {'prompts': prompts, 'banner': rng.choice(['', 'Welcome\r\n', 'fake 1.0\r\nnote: $x\r\n']), 'orig': rng.choice(['$', '>>> ', 'orig> ']),
-            'change': rng.choice(['eset', 'PS1=x', 'n']), 'extra': extra, 'ccuts': [gen_cut(rng, 10) for _ in range(8)], 'cmds': cmds, 'echo': rng.random() < 0.3, 'clean': clean and prompts == DEFAULT}
+            'change': rng.choice(['eset', 'PS1=x', 'n']), 'extra': extra, 'ccuts': [gen_cut(rng, 10) for _ in range(8)], 'cmds': cmds, 'echo': rng.random() < 0.3, 'async': [rng.random() < 0.5 for _ in cmds], 'clean': clean and prompts == DEFAULT}
 
 
 def coq_case(case):
     cuts = lambda cs: clist([clist([cnat(n) for n in c]) for c in cs])
-    cmds = clist(['(%s, %s)' % (ctext(c), cuts(cc)) for c, cc in case['cmds']])
+    flags = case.get('async') or [False] * len(case['cmds'])
+    cmds = clist(['(%s, %s, %s)' % (cbool(a), ctext(c), cuts(cc)) for a, (c, cc) in zip(flags, case['cmds'])])
     ccuts = list(case['ccuts'])
     while len(ccuts) < 2:
         ccuts.append([])
@@ -206,7 +239,14 @@ def direct_oracle(ctx, case, records, state):
     m.step(case['change'])
     if case['extra'] is not None:
         spec_command(m, case['extra'])
-    for command, r in records:
+    for rec in records:
+        if rec[0] == 'TIMEOUTS':
+            if state['hits'] < 3:
+                state['hits'] += 1
+                ctx.hit('C16/sim-timeout', '%s(%r, timeout=7): a wait for the prompt was given timeout %r instead of the caller\'s' % ('await run_command' if rec[2] else 'run_command', rec[1], rec[3][0]),
+                        {'case': repr(case)})
+            continue
+        command, r = rec
         want = spec_command(m, command)
         got = ('ret', r[1]) if r[0] == 0 else (('incomplete',) if r[0] == 1 else (('nocommand',) if r[0] == 3 else ('failed',)))
         if got != want and state['hits'] < 3:
@@ -372,6 +412,12 @@ def run(ctx):
     for it in range(12000 if thorough else 2500):
         case = gen_case(rng)
         obs, records = run_sim(pexpect, case)
+        for rec in records:
+            if rec[0] == 'TIMEOUTS' and state['hits'] < 3:
+                state['hits'] += 1
+                ctx.hit('C16/sim-timeout', '%s(%r, timeout=7): a wait for the prompt was given timeout %r instead of the caller\'s' % ('await run_command' if rec[2] else 'run_command', rec[1], rec[3][0]),
+                        {'case': repr(case)})
+        records = [rec for rec in records if rec[0] != 'TIMEOUTS']
         if case['clean']:
             direct_oracle(ctx, case, records, state)
         cases.append((coq_case(case), obs, {'case': repr(case)}))
@@ -389,7 +435,7 @@ def run(ctx):
             ctx.hit('C16/lines', 'run_command(%r) sent the lines %r; the command is %r' % (c, got, py_cmdlines(c)), {'command': c})
         lines_cases.append((ctext(c), got, {'command': repr(c)}))
     if have:
-        ctx.run_cases('repl-sim', ['Repl.Model', 'Repl.Run'], 'run_repl_obs', 'bool * list N * list N * list N * list N * list N * option (list N) * list (list nat) * list (list N * list (list nat))', cases, shard=250)
+        ctx.run_cases('repl-sim', ['Repl.Model', 'Repl.Run'], 'run_repl_obs', 'bool * list N * list N * list N * list N * list N * option (list N) * list (list nat) * list (bool * list N * list (list nat))', cases, shard=250)
         ctx.run_cases('repl-cmdlines', ['Repl.Model', 'Repl.Run'], 'run_cmdlines', 'list N', lines_cases, shard=500)
     else:
         ctx.corr_broken.append(('repl-sim', {'error': 'model did not build'}))
